@@ -1,0 +1,19 @@
+//go:build verif
+
+package de
+
+// Contracts for the goblvc verifier (see /verif/DESIGN.md). Comments only.
+//
+// C13 (Germany, USt-IdNr.): nine digits, the ninth being the ISO 7064 MOD 11,10 check
+// digit of the first eight. dePS is one step of the published recurrence, deP its value
+// after the first n digits.
+//@ spec deS(p int, d int) int = ite((d + p) % 10 == 0, 10, (d + p) % 10)
+//@ spec dePS(p int, d int) int = (2 * deS(p, d)) % 11
+//@ rec deP(val string, n int) int = ite(n <= 0, 10, dePS(deP(val, n - 1), s_byte(val, n - 1) - 48))
+//@ spec deCheck(val string) int = ite(11 - deP(val, 8) == 10, 0, 11 - deP(val, 8))
+//
+// The format (nine digits) is established by the caller's pattern.
+//@ func validateTaxCodeChecksum(val) (err)
+//@   requires len(val) == 9 && s_isdigits(val)
+//@   ensures [iff] err == nil <==> s_byte(val, 8) - 48 == deCheck(val)
+//@   loop 1 invariant 0 <= i && i <= 8 && p == deP(val, i)
